@@ -40,6 +40,7 @@ RULE = ("`schema apply --exclude P --auto-approve` on SQLite files: excluded tab
 KNOWN_REBUILD_EXCL = "cli|excl|sub-resource-lost-by-sqlite-rebuild"
 KNOWN_REBUILD_SKIP = "cli|skip|nested-skip-defeated-by-sqlite-rebuild"
 KNOWN_FK_COLUMN = "cli|excl|fk-on-excluded-column-breaks-plan"
+KNOWN_INSPECT_FK = "cli|excl|inspect|fk-into-excluded-table-unrenderable"
 KNOWN_REBUILD_ADDCOL = "cli|skip|skipped-add-column-breaks-sqlite-rebuild"
 
 
@@ -92,14 +93,30 @@ def run_exclude(ctx, case, verbose=False):
     db = os.path.join(d, "x.db")
     L.create_db(db, case["cur"])
     vlib.write_files(d, {"want.hcl": L.hcl(case["want"])})
-    args = ["schema", "apply", "--url", "sqlite://x.db", "--to", "file://want.hcl", "--auto-approve"]
-    for p in case["patterns"]:
-        args += ["--exclude", p]
+    proj, xflags, use_env = L.exclude_invocation(case)
+    if use_env:
+        vlib.write_files(d, {"atlas.hcl": proj})
+        args = ["schema", "apply", "--env", "e", "--auto-approve"] + xflags
+        iargs = ["schema", "inspect", "--env", "e"] + xflags
+        dargs = ["schema", "diff", "--env", "e", "--from", "sqlite://x.db", "--to", "file://want.hcl"] + xflags
+    else:
+        args = ["schema", "apply", "--url", "sqlite://x.db", "--to", "file://want.hcl", "--auto-approve"] + xflags
+        iargs = ["schema", "inspect", "--url", "sqlite://x.db"] + xflags
+        dargs = ["schema", "diff", "--from", "sqlite://x.db", "--to", "file://want.hcl", "--dev-url", "sqlite://dev?mode=memory"] + xflags
     before, fb = vlib.dump_db(db), L.facts(db)
+    irc, iout, ierr = ctx.atlas_run(iargs, d)
+    hcl_inspect_err = None
+    if irc != 0 and "missing reference for column" in (ierr + iout):
+        # the HCL marshaler cannot render a foreign key whose parent table is excluded: look at the SQL rendering instead
+        hcl_inspect_err = (ierr or iout).strip()[-300:]
+        irc, iout, ierr = ctx.atlas_run(iargs + ["--format", "{{ sql . }}"], d)
+    drc, dout, derr = ctx.atlas_run(dargs, d)
+    if vlib.dump_db(db) != before:
+        raise RuntimeError("schema inspect / schema diff changed the database")
     rc, out, err = ctx.atlas_run(args, d)
     if verbose:
         print(out, err)
-    if rc == 124:
+    if 124 in (rc, irc, drc):
         ctx.inconclusive("watchdog")
         return
     after, fa = vlib.dump_db(db), L.facts(db)
@@ -112,6 +129,45 @@ def run_exclude(ctx, case, verbose=False):
     cur = {t["name"]: t for t in case["cur"]}
     want = {t["name"]: t for t in case["want"]}
     cls = "exclude-sub:" + case["fate"] if sub else "exclude"
+    # ---- schema inspect / schema diff with the same patterns (before the apply) ----
+    bad0 = set(ex) | {"new_" + x for x in ex}
+    for x in ex:
+        for t in (cur.get(x), want.get(x)):
+            if t:
+                bad0 |= {i[0] for i in t["idx"]}
+    if sub:
+        bad0 |= {"secret", "ix_secret"}
+    import re
+    seen = named = None
+    if hcl_inspect_err is not None:
+        if not sub and (case["ref_target"] or case["fk_from_db_only"]):
+            v.add(KNOWN_INSPECT_FK, "schema inspect with the patterns %r fails because a managed table references an excluded table: %s" % (case["patterns"], hcl_inspect_err))
+        else:
+            v.add("cli|excl|inspect|error", "schema inspect failed: %s" % hcl_inspect_err)
+        if irc == 0:
+            seen = set(re.findall(r"^CREATE TABLE `([^`]+)`", iout, re.M))
+            named = set()
+            for s_ in L.statements(iout):
+                named |= L.targets(s_)
+    elif irc == 0:
+        seen = set(re.findall(r'^table "([^"]+)"', iout, re.M))
+        named = set(re.findall(r'^\s*(?:table|column|index) "([^"]+)"', iout, re.M))
+    if seen is None:
+        v.add("cli|excl|inspect|error", "schema inspect failed rc=%d: %s" % (irc, (ierr or iout)[-400:]))
+    else:
+        if named & bad0:
+            v.add("cli|excl|inspect|excluded-present", "schema inspect with the patterns %r shows excluded %s" % (case["patterns"], sorted(named & bad0)))
+        missing = {n for n in cur if n not in ex} - seen
+        if missing:
+            v.add("cli|excl|inspect|nonexcluded-missing", "schema inspect with the patterns %r does not show %s" % (case["patterns"], sorted(missing)))
+    if drc != 0:
+        v.add("cli|excl|diff|error", "schema diff failed rc=%d: %s" % (drc, (derr or dout)[-400:]))
+    else:
+        for s_ in L.statements(dout):
+            hit = L.targets(s_) & bad0
+            if hit:
+                v.add("cli|excl|diff|excluded-object-in-plan", "schema diff statement names excluded %s: %s" % (sorted(hit), s_[:300]))
+                break
     if rc != 0:
         if sub and case["fate"].startswith("fkcol") and 'unknown column "secret" in foreign key definition' in (err + out) and after == before:
             v.add(KNOWN_FK_COLUMN, "--exclude %s on a column that carries a foreign key: the inspected side drops the foreign key with the column, the "
@@ -182,7 +238,7 @@ def run_exclude(ctx, case, verbose=False):
             if n not in want and n not in ex and n in fa:
                 v.add("cli|excl|managed-not-converged|dropped", "managed table %s is not in the file but still exists" % n)
         # (4) second apply
-        if not v.items:
+        if not [k for k, _, _ in v.items if k != KNOWN_INSPECT_FK]:
             rc2, out2, err2 = ctx.atlas_run(args, d)
             if rc2 == 124:
                 ctx.inconclusive("watchdog")
@@ -191,6 +247,7 @@ def run_exclude(ctx, case, verbose=False):
                 v.add("cli|excl|second-apply-not-synced", "second identical apply: rc=%d output=%s" % (rc2, (out2 + err2)[-500:]))
     # ---- evidence ----
     ctx.count("class:" + cls)
+    ctx.count("pattern-source:" + case.get("source", "flag"))
     if not sub:
         for x, p in case["placement"].items():
             ctx.count("excluded-placement:" + p)
@@ -202,8 +259,8 @@ def run_exclude(ctx, case, verbose=False):
             ctx.count("db-fk-into-db-only-excluded")
         ctx.count("pattern-style:" + ("selector" if any("[type=" in p for p in case["patterns"]) else "glob" if any(c in "".join(case["patterns"]) for c in "*?[") else "literal"))
     ctx.count("plan:" + ("none" if not stmts else "rebuild" if any(s.startswith("CREATE TABLE `new_") for s in stmts) else "other"))
-    ctx.eval(vlib.digest(case["patterns"], sorted(ex), case.get("placement"), case.get("fates", case.get("fate")), stmts), nontrivial=bool(stmts) and (bool(ex) or sub))
-    report(ctx, case, v, {"patterns": case["patterns"], "excluded": sorted(ex), "statements": len(stmts)}, verbose)
+    ctx.eval(vlib.digest(case["patterns"], case.get("source"), sorted(ex), case.get("placement"), case.get("fates", case.get("fate")), stmts), nontrivial=bool(stmts) and (bool(ex) or sub))
+    report(ctx, case, v, {"patterns": case["patterns"], "source": case.get("source", "flag"), "excluded": sorted(ex), "statements": len(stmts)}, verbose)
 
 
 # ------------------------------------------------------------------------------------------------
